@@ -36,7 +36,7 @@ type stats struct {
 	exactChecked, removeWithSub, removeStarSurvives, resetSeen, staticRound, dynamicRound      bool
 	modelAmbiguous, backdated, richNames, sleptWithACL, parkedInsideFeed, removeReaddRace      bool
 	startedWhileInsideFeed, mixedEnc, nilPath, perPathOrigins, rpcDeadline, walkParkedInInsert bool
-	aclFlipped, oddTargetNames, updatesOnlyRound                                               bool
+	aclFlipped, oddTargetNames, updatesOnlyRound, atomicTwist                                  bool
 	skippedSteps, maxBulk, maxOnceLeaves                                                       int
 }
 
@@ -86,6 +86,7 @@ func (s *stats) labels() []string {
 	add(s.richNames, "names-with-common-string-prefix-or-slash")
 	add(s.sleptWithACL, "quiet-period-with-acl")
 	add(s.aclFlipped, "grant-changed-while-streams-were-open")
+	add(s.atomicTwist, "atomic-container-re-sent-with-the-same-values-on-rotated-member-paths")
 	add(s.updatesOnlyRound, "once-or-poll-round-with-updates-only")
 	add(s.oddTargetNames, "target-names-with-glob-character-case-twins-or-separators")
 	add(s.maxBulk > 32, "bulk-update>32")
@@ -295,22 +296,23 @@ type writer struct {
 type world struct {
 	// callback gate: the harness owns the cache's change-feed callback, so a writer can be
 	// parked inside it (before or after the entry is forwarded) without any hook in the code
-	cleanups []func()
-	cbMu     sync.Mutex
-	cbPoint  string
-	cbArm    int
-	t        *testing.T
-	sc       *Scenario
-	prop     string
-	chk      map[string]bool
-	c        *cache.Cache
-	srv      *subscribe.Server
-	g        *gates
-	acl      *aclDouble
-	subs     []*subState
-	step     int
-	ts       int64
-	base     time.Time
+	cleanups   []func()
+	lastAtomic map[string][]*pb.Update // per target/origin/prefix: the updates of the atomic notification built last
+	cbMu       sync.Mutex
+	cbPoint    string
+	cbArm      int
+	t          *testing.T
+	sc         *Scenario
+	prop       string
+	chk        map[string]bool
+	c          *cache.Cache
+	srv        *subscribe.Server
+	g          *gates
+	acl        *aclDouble
+	subs       []*subState
+	step       int
+	ts         int64
+	base       time.Time
 
 	mu        sync.Mutex
 	fed       []fedEntry
@@ -580,6 +582,21 @@ func (w *world) buildNoti(op *WOp) *pb.Notification {
 			p = first
 		}
 		n.Update = append(n.Update, gn.MakeUpdate(w.wpath(op, p), u.Val))
+	}
+	if op.Atomic {
+		ak := name + "|" + origin + "|" + gn.Key(gn.IndexOfElems(prefix, false))
+		if last := w.lastAtomic[ak]; op.Twist && len(last) >= 2 {
+			// the container sent last at this prefix: same values in the same order, member paths rotated by one
+			n.Update = nil
+			for i := range last {
+				n.Update = append(n.Update, &pb.Update{Path: proto.Clone(last[(i+1)%len(last)].Path).(*pb.Path), Val: last[i].Val, Value: last[i].Value})
+			}
+			w.st.atomicTwist = true
+		}
+		if w.lastAtomic == nil {
+			w.lastAtomic = map[string][]*pb.Update{}
+		}
+		w.lastAtomic[ak] = n.Update
 	}
 	if b := op.Bulk; b != nil && !op.Atomic {
 		for i := b.Start; i < b.Start+b.N; i++ {
